@@ -9,7 +9,9 @@
   Core Lean only (no Mathlib): `drv_c06` links against this file.
 
   The model describes the tree AFTER fixes/C06-no-echo-via-cache.patch (the
-  router-cache search of `process_npdu` skips the arrival adapter).
+  router-cache search of `process_npdu` skips the arrival adapter) and
+  fixes/C06-router-without-address.patch (a local adapter bound without an
+  address never matches a remote-station DADR instead of raising AttributeError).
 
   Domain
   * The entry point for received traffic is `NetworkAdapter.confirmation`, which
@@ -189,7 +191,7 @@ def classify (loc arr : Adapter) (p : Npci) : Class :=
       if some d == arr.net then .drop 3
       else if some d == loc.net then
         match loc.addr with
-        | none => .raised .attribute
+        | none => .go false true          -- bound without an address: no station of its own
         | some a => .go (m == a) (!(m == a))
       else .go false true
   | some .gb => .go true true
